@@ -134,18 +134,14 @@ theorem bufStep_fill (rw : Rune → Int) (b : Buf) (r : Rune) (st : Style) (hst 
   · intro _ i j; left; simp [Cell.filled, hr]
   · intro _ i j; simp only [fill_cells, Cell.filled]; exact hst
 
-/-- Fill of either tree (`Buf.fillV`), for the runes `ScrOp.Valid` admits -/
-theorem bufStep_fillV (fz : Bool) (rw : Rune → Int) (b : Buf) (r : Rune) (st : Style) (hst : st.attrs ≠ attrInvalid)
-    (hr : rw r = 1 ∨ (fz = true ∧ rw r = 0)) : BufStep rw b (b.fillV fz rw r st) := by
+/-- Fill of either tree (`Buf.fillV`), for the runes `ScrOp.Valid` admits: the repaired Fill stores a blank for a
+zero-width rune, so this is `bufStep_fill` at the substituted rune -/
+theorem bufStep_fillV (fz : Bool) (rw : Rune → Int) (h32 : rw 32 = 1) (b : Buf) (r : Rune) (st : Style)
+    (hst : st.attrs ≠ attrInvalid) (hr : rw r = 1 ∨ (fz = true ∧ rw r = 0)) : BufStep rw b (b.fillV fz rw r st) := by
+  rw [fillV_eq]
   rcases hr with hr | ⟨hf, hr⟩
-  · rw [fillV_of_ne0 fz rw b r st (by omega)]; exact bufStep_fill rw b r st hst hr
-  · subst hf
-    refine { w := rfl, h := rfl, keep := ?_, dirty := ?_, wok := ?_, valid := ?_ }
-    · intro i j hl hm; simp only [fillV_cells, Cell.filledW_lock, Cell.filledW_lastMain, Cell.filledW_last] at hl hm ⊢
-      exact ⟨hl, hm, trivial⟩
-    · intro i j h0; simpa using h0
-    · intro _ i j; left; simp [Cell.fillWidth_true_zero rw r hr, hr]
-    · intro _ i j; simp only [fillV_cells, Cell.filledW_currStyle]; exact hst
+  · rw [Cell.fillRune_ne0 fz rw r (by omega)]; exact bufStep_fill rw b r st hst hr
+  · subst hf; rw [Cell.fillRune_true_zero rw r hr]; exact bufStep_fill rw b 32 st hst h32
 
 theorem bufStep_lockCell (rw : Rune → Int) (b : Buf) (x y : Int) : BufStep rw b (b.lockCell x y) := by
   refine { w := by simp, h := by simp, keep := ?_, dirty := ?_, wok := ?_, valid := ?_ }
@@ -300,6 +296,11 @@ theorem fill_blank (b : Buf) (r : Rune) (st : Style) (i j : Int) : BlankOk (b.fi
   split
   · simp
   · omega
+
+/-- Fill of either tree records width 1 in every cell, so every cell satisfies `BlankOk` afterwards -/
+theorem fillV_blank (fz : Bool) (rw : Rune → Int) (b : Buf) (r : Rune) (st : Style) (i j : Int) :
+    BlankOk (b.fillV fz rw r st) i j := by
+  rw [fillV_eq]; exact fill_blank b _ st i j
 
 theorem lockCell_blank (b : Buf) (x y : Int) (i j : Int) (h : BlankOk b i j) : BlankOk (b.lockCell x y) i j := by
   refine h.of_same (by simp) (by simp) ?_ ?_
@@ -869,7 +870,7 @@ theorem step_inv {c : DrawCfg} (hrw : RwOk c.rw) (hct : c.Plain) {wd : World} (i
     exact winv_bufop inv _ (bufStep_setContent c.rw _ x y m comb st hv)
       (fun _ i j _ hm hb => setContent_blank c.rw _ x y m comb st i j hm hb)
   | fill r st =>
-    exact winv_bufop inv _ (bufStep_fillV c.fillZW c.rw _ r st hv.1 hv.2) (fun _ i j _ _ _ => fillV_blank c.fillZW c.rw _ r st i j)
+    exact winv_bufop inv _ (bufStep_fillV c.fillZW c.rw hrw.space _ r st hv.1 hv.2) (fun _ i j _ _ _ => fillV_blank c.fillZW c.rw _ r st i j)
   | lockRegion x y w h lock =>
     cases hg : c.guardLocked
     · have e : wd.step c (.lockRegion x y w h lock) =
